@@ -103,7 +103,9 @@ use crate::values::Value;
 use crate::values::ValueLike;
 use crate::values::any::AtomicFrozenAnyValueOption;
 use crate::values::any::FrozenAnyValue;
+use crate::values::dict::DictRef;
 use crate::values::function::FUNCTION_TYPE;
+use crate::values::tuple::value::Tuple;
 use crate::values::types::any_array::AnyArray;
 use crate::values::types::any_array::FrozenAnyArray;
 use crate::values::typing::type_compiled::compiled::TypeCompiled;
@@ -748,6 +750,22 @@ where
             match eval.current_frame.get_slot(i.to_captured_or_not()) {
                 None => {
                     panic!("Not allowed optional unassigned with type annotations on them")
+                }
+                // The annotation of `*args: T` and `**kwargs: T` is the type of each extra
+                // argument (as in the signature type), not of the tuple or dict holding them.
+                Some(v) if Some(i.0) == self.parameters.args_index() => {
+                    if let Some(args) = Tuple::from_value(v) {
+                        for x in args.content() {
+                            ty.check_type(*x, Some(arg_name))?;
+                        }
+                    }
+                }
+                Some(v) if Some(i.0) == self.parameters.kwargs_index() => {
+                    if let Some(kwargs) = DictRef::from_value(v) {
+                        for x in kwargs.values() {
+                            ty.check_type(x, Some(arg_name))?;
+                        }
+                    }
                 }
                 Some(v) => ty.check_type(v, Some(arg_name))?,
             }
